@@ -188,6 +188,33 @@ def run(ctx):
                   f"a band position carries the float coordinate {T.show(T.alpha(bad[0]))[:100] if bad else ''}: different float positions inside one pixel are "
                   f"kept as different set elements and Image.getpixel truncates them to the same pixel, which is then summed more than once")
 
+    ctx.clause("the band follows the polyline: between two end points the minor coordinate is the linear interpolation along the major axis, in either walking direction")
+    v0_, v1_ = T.sym(wk.params[0]), T.sym(wk.params[1])
+    n_interp = 0
+    for e in gl:
+        loopvar = ("bv", e.loops()[-1][1])
+        for t in T.subterms(e.args[0]):
+            if t[0] == "call" and t[1] == "numpy.interp" and len(t[2]) >= 3:
+                n_interp += 1
+                xp = t[2][1]
+                if xp[0] == "seq" and len(xp[1]) == 2 and xp[1][0][0] == "idx" and xp[1][1][0] == "idx" and xp[1][0][1] == v0_ and xp[1][1][1] == v1_:
+                    ctx.violation("FORM", f"{wk.qualname} / FORM / interpolation valid in both walking directions", ctx.where(wk, e.node),
+                                  f"numpy.interp is given the sample points {T.show(T.alpha(xp))[:90]} in walking order; numpy.interp requires increasing "
+                                  "sample points and returns meaningless values otherwise, and the walk runs from v0 to v1 in decreasing direction too "
+                                  "(delta = -1): segments stored in descending direction get a band that does not follow the segment")
+            if t[0] == "call" and isinstance(t[1], tuple) and t[1][0] == "dyn" and t[1][1][0] == "call" and t[1][1][1] == "scipy.interpolate.interp1d":
+                n_interp += 1
+                ip = t[1][1]
+                xs_, ys_ = (ip[2] + (None, None))[:2]
+                kind = dict(ip[3]).get("kind", ("str", "linear"))
+                okf = xs_ is not None and ys_ is not None and xs_[0] == "seq" and ys_[0] == "seq" and len(xs_[1]) == 2 and len(ys_[1]) == 2 \
+                    and [u[1] for u in xs_[1]] == [v0_, v1_] and [u[1] for u in ys_[1]] == [v0_, v1_] and xs_[1][0][2] == xs_[1][1][2] and ys_[1][0][2] == ys_[1][1][2] \
+                    and xs_[1][0][2] != ys_[1][0][2] and kind == ("str", "linear") and t[2] == (loopvar,)
+                ctx.check(okf, "FORM", f"{wk.qualname} / FORM / minor coordinate = linear interpolation between the two end points at the walk variable", ctx.where(wk, e.node),
+                          "interp1d([v0[axis], v1[axis]], [v0[axis-1], v1[axis-1]], kind='linear')(value)",
+                          f"the minor coordinate is {T.show(T.alpha(t))[:200]}")
+    ctx.count("FORM", "interpolation sites in the walk", n_interp, 1)
+
     ctx.clause("read_myosin hands the chosen interface list and every option to get_intensities in the right slots")
     rm = repo.func(f"{MY}.read_myosin")
     ctx.touch(rm)
@@ -210,6 +237,8 @@ def run(ctx):
 
 _P = "forsys/myosin.py"
 PINNED = [
+    ("walk interpolates with np.interp on end points in walking order", "forsys/myosin.py", "        other = int(interpolation(value))", "        other = int(np.interp(value, [v0[axis], v1[axis]], [v0[axis - 1], v1[axis - 1]]))"),
+    ("walk interpolates the major coordinate against itself", "forsys/myosin.py", "                                                [v0[axis - 1], v1[axis - 1]],", "                                                [v0[axis], v1[axis]],"),
     ("F17 reintroduced: float band positions", _P, "        other = int(interpolation(value))\n", "        other = interpolation(value)\n"),
     ("read_myosin swaps integrate and normalize", _P, "                           image,\n                           integrate,\n                           normalize,\n                           layers,", "                           image,\n                           normalize,\n                           integrate,\n                           layers,"),
     ("read_myosin defaults to all interfaces", _P, '    if kwargs.get("use_all", False):', '    if kwargs.get("use_all", True):'),
@@ -228,6 +257,7 @@ PINNED = [
     ("squared pixel values", _P, "    return list(map(image.getpixel, pixel_positions))", "    return [image.getpixel(p) ** 2 for p in pixel_positions]"),
 ]
 PRESERVING = [
+    ("interp1d with its default kind", "forsys/myosin.py", "                                                [v0[axis - 1], v1[axis - 1]],\n                                                kind=\"linear\")", "                                                [v0[axis - 1], v1[axis - 1]])"),
     ("get_layer_elements inlined at its call site in get_intensity", "forsys/myosin.py", "    pixel_positions = get_layer_elements(x_y_position, layers)\n",
      "    layer_range = np.arange(-layers, layers + 1)\n    pixel_positions = [(x_y_position[0] + ii, x_y_position[1] + kk) for (ii, kk) in itertools.product(layer_range, layer_range)]\n"),
     ("window range spelled with range()", _P, "xy_pixel = (position[0] + ii, position[1] + kk)", "xy_pixel = (ii + position[0], kk + position[1])"),
